@@ -144,6 +144,54 @@ def gen_features(tier: str) -> Iterator[dict]:
             yield {"id": "F3:" + "+".join(t["name"] for t in trio), "space": "F", "src": assemble(trio), "runs": [{"passes": 1, "ar": {"A0": [4], "A1": [5], "A2": [6]}, "pulse": [583]}], "feats": [t["name"] for t in trio]}
 
 
+
+# -- helper call shapes -----------------------------------------------------------------------------
+# (c) one helper, two call sites: every ordered pair of argument expression forms x helper bodies that need a
+#     helper template / a typed variant.  The helper template is used ONLY inside the def body.
+G_HEAD = ["g = a * 0.5", "fl = [1.5, 2.5]", "li = [3, 4]", 'word = "abc"', 'names = ["ab", "cd"]']
+G_DEFS = ["def half(v):", "    return v / 2"]
+G_NUM = ["3", "2.5", "-1.5", "a", "g", "g * 2.5", "a + 1", "g + a", "1.5 if a > 2 else 2.5", "half(a)", "fl[0]", "li[1]", "a / 4", "True", "a > 2", "abs(g)", "max(a, 2)", "int(g)", "float(a)", "-g", "len(word)"]
+G_STR = ['"s"', "word", "str(a)", 'f"{a}"', 'word + "x"', "names[1]", "str(g)"]
+G_BODIES_NUM = {
+    "arith": ["return p + 1"],
+    "local": ["q = p * 2", "return q"],
+    "show": ["mon.write(p)"],
+    "fmt": ['return f"{p}|"'],
+    "cond": ["if p > 2:", "    return p", "return 0"],
+    "list": ["box = [p, p]", "box.append(p)", "return box[2] + len(box)"],
+    "minmax": ["return max(p, 2) + min(p, 1) + abs(p)"],
+}
+G_BODIES_STR = {
+    "len": ["return len(p)"],
+    "show": ["mon.write(p)"],
+    "concat": ['return p + "!"'],
+    "fmt": ['return f"{p}|"'],
+    "len_loop": ["n = 0", "for i in range(len(p)):", "    n += 1", "return n"],
+}
+
+
+def gen_calls(tier: str) -> Iterator[dict]:
+    run = [{"passes": 1, "ar": {"A0": [4], "A1": [5], "A2": [6]}}]
+
+    def prog(body, e1, e2, void):
+        fn = G_DEFS + ["def f(p):"] + common.indent(body)
+        if void:
+            calls = [f"f({e1})", f"f({e2})"]
+        else:
+            calls = [f"r1 = f({e1})", "mon.write(r1)", f"mon.write(f({e2}))"]
+        return common.script(G_HEAD + calls[:1 if void else 2], calls[(1 if void else 2):], prologue=PRO, defs=fn)
+
+    for bname, body in G_BODIES_NUM.items():
+        for e1, e2 in itertools.product(G_NUM, repeat=2):
+            yield {"id": f"G:num:{bname}:{e1}|{e2}", "space": "G", "src": prog(body, e1, e2, bname == "show"), "runs": run}
+    for bname, body in G_BODIES_STR.items():
+        for e1, e2 in itertools.product(G_STR, repeat=2):
+            yield {"id": f"G:str:{bname}:{e1}|{e2}", "space": "G", "src": prog(body, e1, e2, bname == "show"), "runs": run}
+    for bname in ("show", "fmt"):
+        for e1, e2 in itertools.product(G_NUM, G_STR):
+            yield {"id": f"G:mix:{bname}:{e1}|{e2}", "space": "G", "src": prog(G_BODIES_STR[bname], e1, e2, bname == "show"), "runs": run}
+            yield {"id": f"G:mix:{bname}:{e2}|{e1}", "space": "G", "src": prog(G_BODIES_STR[bname], e2, e1, bname == "show"), "runs": run}
+
 # -- string literals -------------------------------------------------------------------------------
 NON_ASCII = ["é", "ß", "日", "€", "😀", "\u00a0", "ÿ"]
 
@@ -238,6 +286,8 @@ def main(tier: str, seed: int, only=None) -> int:
     bad = ("violation", "transpile_crash", "transpile_timeout")
     if not only or "F" in only:
         common.drive(report, MOD, gen_features(tier), opts={"host": False}, batch_size=40, bad=bad)
+    if not only or "G" in only:
+        common.drive(report, MOD, gen_calls(tier), opts={"host": False}, batch_size=40, bad=bad, include_witnesses=False)
     if not only or "L" in only:
         common.drive(report, MOD, gen_literals(tier), opts={"host": True, "host_timeout": 30}, batch_size=2, bad=bad, include_witnesses=False)
     fs = features()
